@@ -271,6 +271,7 @@ func c15(p *core.Program, r *core.Report) {
 		}
 	}
 	endpointCaseRule(p, r)
+	segmentPairMeasuresSegmentRule(p, r)
 	closestPointsOrthogonalRule(p, r, "closest-points-orthogonal")
 	cancellationRule(p, r, "integer-quantities-exact", 20, []fxTarget{{"xy", "DistanceFromPointToLine"}, {"xy", "PerpendicularDistanceFromPointToLine"}, {"xy", "DistanceFromLineToLine"}, {"xyz", "DistancePointToLine"}, {"xyz", "DistanceLineToLine"}}, 8)
 	pointSegmentFormulaRule(p, r, "point-segment-formula", []pointSegTarget{{"xy", "DistanceFromPointToLine", 2}, {"xy", "PerpendicularDistanceFromPointToLine", 2}, {"xyz", "DistancePointToLine", 3}, {"xy", rdpDistanceName(p), 2}}, 4)
@@ -491,5 +492,64 @@ func endpointCaseRule(p *core.Program, r *core.Report) {
 		if n == 0 {
 			r.Bad(rn, short(fn)+"/single", p.Pos(fn.Pos()), "no single-end-point result found (the zero-length guards return one each): the rule has lost its anchor")
 		}
+	}
+}
+
+// segmentPairMeasuresSegmentRule (C15): the distance between two segments is never taken between two of their end
+// points alone.
+func segmentPairMeasuresSegmentRule(p *core.Program, r *core.Report) {
+	const rn = "segment-pair-measures-a-segment"
+	r.Rule(rn, "in the 2D and 3D segment-to-segment distances no point-to-point distance (a call of a function with exactly two coordinate parameters) is taken between an end point of one segment and an end point of the other, except behind the true edge of an equality test that makes one of the segments a point: the closest point of the other segment to an end point is in general interior to it, so a minimum over end-point pairs overestimates (two parallel segments, one overhanging the other on both sides)", 2)
+	for _, sib := range [][3]string{{"xy", "DistanceFromLineToLine", "2"}, {"xyz", "DistanceLineToLine", "3"}} {
+		fn := mustFn(p, r, rn, sib[0], sib[1])
+		if fn == nil || len(fn.Params) < 4 || len(fn.Blocks) == 0 {
+			continue
+		}
+		dims := 2
+		if sib[2] == "3" {
+			dims = 3
+		}
+		guards := equalityGuards(fn, dims)
+		n := 0
+		bad := ""
+		for _, c := range eng.Calls(fn) {
+			callee := c.Common().StaticCallee()
+			if callee == nil {
+				continue
+			}
+			args := c.Common().Args
+			ncoord := 0
+			for _, a := range args {
+				if isCoordType(eng.StripConv(a).Type()) || isCoordType(a.Type()) {
+					ncoord++
+				}
+			}
+			res := callee.Signature.Results()
+			if ncoord != 2 || len(args) != 2 || res.Len() != 1 || !isFloat64(res.At(0).Type()) {
+				continue
+			}
+			a, b := paramIndex(fn, args[0]), paramIndex(fn, args[1])
+			if a < 0 || b < 0 || a > 3 || b > 3 || a/2 == b/2 {
+				continue // not an end point of each segment
+			}
+			n++
+			// allowed only behind the true edge of an equality guard on one of the segments
+			must := mustEdgesTo(fn, c.Block())
+			behind := false
+			for _, g := range guards {
+				if g.block == nil || g.a/2 != g.b/2 {
+					continue
+				}
+				for _, e := range must {
+					if e[0] == g.block.Index && e[1] == 0 {
+						behind = true
+					}
+				}
+			}
+			if !behind && bad == "" {
+				bad = fmt.Sprintf("%s measures end point %s against end point %s with %s at %s: the other segment's closest point is not in general one of its ends", short(fn), fn.Params[a].Name(), fn.Params[b].Name(), callee.Name(), p.Pos(c.Pos()))
+			}
+		}
+		r.Check(bad == "", rn, short(fn), p.Pos(fn.Pos()), true, fmt.Sprintf("%d end-point-to-end-point distances, each behind a zero-length guard", n), bad)
 	}
 }
